@@ -78,6 +78,8 @@ def enum_tract_pump(tier):
 
 PAIR_CASE = st.fixed_dictionaries({
     "prefix": st.sampled_from(sorted(PREFIXES)), "a": st.sampled_from(ATOMS), "b": st.sampled_from(ATOMS), "gap": st.sampled_from(["", " ", ""]),
+    # an optional third atom, so that units such as 'Sec. 1,' or '1 - 154' occur
+    "c": st.sampled_from([""] * 3 + ATOMS), "gap2": st.sampled_from(["", " "]),
     "trail": st.sampled_from(["", " "]), "suffix": st.sampled_from(SUFFIXES), "frac": st.sampled_from([1, 1, 2, 4]),
 }).map(lambda c: dict(c, kind="tract") if c["prefix"].startswith("t_") else c)
 
@@ -86,17 +88,25 @@ def text_of(c):
     if "unit" in c:
         return pump(PREFIXES[c["prefix"]], c["unit"], c["suffix"], c["frac"])
     if "a" in c:
-        return pump(PREFIXES[c["prefix"]], c["a"] + c["gap"] + c["b"] + c["trail"], c["suffix"], c["frac"])
+        return pump(PREFIXES[c["prefix"]], pair_unit(c), c["suffix"], c["frac"])
     if "rep" in c:
         return rep_text(c)
     return c["text"]["text"][:MAXLEN]
 
 
+def pair_unit(c):
+    u = c["a"] + c["gap"] + c["b"]
+    if c.get("c"):
+        u += c.get("gap2", "") + c["c"]
+    return u + c["trail"]
+
+
 # structural repetition ----------------------------------------------------------
 REP_KINDS = ["same_twprge_lines", "different_twprge_lines", "twprge_only", "sections", "section_list", "lots", "lot_list", "aliquots",
-             "aliquot_chain", "aliquot_words", "desc_str_tracts", "twprge_spelled"]
-REP_CASE = st.fixed_dictionaries({"rep": st.sampled_from(REP_KINDS), "sep": st.sampled_from(["\n", ", ", " ", "; ", ",\n", "\n\n"]),
-                                  "k": st.integers(2, 60), "var": st.integers(0, 3)})
+             "aliquot_chain", "aliquot_words", "desc_str_tracts", "twprge_spelled", "section_keyword_list", "lot_keyword_list", "section_ranges"]
+REP_TAILS = ["", "", "\nT155N-R97W Sec 1: ALL", ", T155N-R97W", "\nT155N-R97W"]
+REP_CASE = st.fixed_dictionaries({"rep": st.sampled_from(REP_KINDS), "sep": st.sampled_from(["\n", ", ", " ", "; ", ",\n", "\n\n", " and ", " & "]),
+                                  "k": st.integers(2, 60), "var": st.integers(0, 5), "tail": st.sampled_from(REP_TAILS)})
 
 
 def rep_text(c):
@@ -108,7 +118,7 @@ def rep_text(c):
         elif kind == "different_twprge_lines":
             items.append(f"T{150 + i}N-R{90 + i % 9}W Sec {i % 36 + 1}: NE/4")
         elif kind == "twprge_only":
-            items.append(["T154N-R97W", "154N-97W", "T154-R97", "Township 154 North, Range 97 West"][c["var"]])
+            items.append(["T154N-R97W", "154N-97W", "T154-R97", "Township 154 North, Range 97 West"][c["var"] % 4])
         elif kind == "sections":
             items.append(f"Sec {i % 36 + 1}: NE/4")
         elif kind == "section_list":
@@ -116,19 +126,33 @@ def rep_text(c):
         elif kind == "lots":
             items.append(f"Lot {i + 1}")
         elif kind == "lot_list":
-            items.append(str(i + 1) + ["", "(40.0)", " - ", ""][c["var"]])
+            items.append(str(i + 1) + ["", "(40.0)", " - ", ""][c["var"] % 4])
         elif kind == "aliquots":
-            items.append(["NE/4", "N/2", "NE¼", "N½SW¼"][c["var"]])
+            items.append(["NE/4", "N/2", "NE¼", "N½SW¼"][c["var"] % 4])
         elif kind == "aliquot_chain":
-            items.append(["N/2", "NE/4", "N½", "E2"][c["var"]])
+            items.append(["N/2", "NE/4", "N½", "E2"][c["var"] % 4])
         elif kind == "aliquot_words":
-            items.append(["North Half", "Northeast Quarter", "North One Half of the", "NE Quarter of"][c["var"]])
+            items.append(["North Half", "Northeast Quarter", "North One Half of the", "NE Quarter of"][c["var"] % 4])
         elif kind == "desc_str_tracts":
             items.append(f"NE/4 of Sec {i % 36 + 1}, T154N-R97W")
         elif kind == "twprge_spelled":
             items.append(f"Township {100 + i} North, Range {i % 99 + 1} West, Section {i % 36 + 1}: ALL")
-    if kind in ("section_list",):
-        text = "T154N-R97W Sections " + sep.strip(" ").join(items) + ": NE/4" if sep.strip() else "T154N-R97W Sections " + ", ".join(items) + ": NE/4"
+        elif kind == "section_keyword_list":
+            items.append(["Sec.", "Section", "Secs.", "§", "Sec", "Sects."][c["var"] % 6] + f" {i % 36 + 1}")
+        elif kind == "lot_keyword_list":
+            items.append(["Lot", "L.", "Lts.", "Lt.", "Lots", "L"][c["var"] % 6] + f" {i + 1}" + ["", "(40.0)", " [39.9]"][c["var"] % 3])
+        elif kind == "section_ranges":
+            items.append(f"{i % 30 + 1}{[' - ', ' thru. ', ' to ', '–', ' through ', ' thru '][c['var'] % 6]}{i % 30 + 3}")
+    tail = c.get("tail", "")
+    if kind in ("section_list", "section_ranges"):
+        text = "T154N-R97W Sections " + (sep if sep.strip() else ", ").join(items)
+        return text[:MAXLEN - len(tail) - 6] + ": NE/4" + tail
+    elif kind == "section_keyword_list":
+        text = "T154N-R97W " + (sep if sep.strip() else ", ").join(items)
+        return text[:MAXLEN - len(tail) - 6] + ": NE/4" + tail
+    elif kind == "lot_keyword_list":
+        text = "T154N-R97W Sec 14: " + (sep if sep.strip() else ", ").join(items)
+        return text[:MAXLEN - len(tail)] + tail
     elif kind in ("lot_list",):
         text = "T154N-R97W Sec 14: Lots " + (sep if sep.strip() else ", ").join(items)
     elif kind in ("sections", "lots", "aliquots", "aliquot_words"):
@@ -137,7 +161,7 @@ def rep_text(c):
         text = "T154N-R97W Sec 14: " + ("" if c["sep"] in ("\n", ", ") else " ").join(items)
     else:
         text = sep.join(items)
-    return text[:MAXLEN]
+    return text[:MAXLEN - len(tail)] + tail
 
 
 SOUP_CASE = st.fixed_dictionaries({"text": soup.ANY_TEXT})
@@ -178,7 +202,7 @@ def family(c, text):
     if "unit" in c:
         return f"pump:{c['prefix']}:{canon_unit(c['unit'])}"
     if "a" in c:
-        return f"pump:{c['prefix']}:{canon_unit(c['a'] + c['gap'] + c['b'] + c['trail'])}"
+        return f"pump:{c['prefix']}:{canon_unit(pair_unit(c))}"
     if "rep" in c:
         return f"rep:{c['rep']}"
     return "soup"
